@@ -12,7 +12,7 @@ from xml.sax.saxutils import escape as _escape, quoteattr
 
 def escape(s):
     """text content: a carriage return only survives parsing as a character reference"""
-    return _escape(s, {"\r": "&#13;"})
+    return _escape(s, {"\r": "&#13;", "\x85": "&#133;", "\x7f": "&#127;", "\x9f": "&#x9F;"})
 
 
 NONE = "~"
@@ -20,7 +20,7 @@ ID_TAGS = ("storyID", "itemID", "roID", "messageID")
 
 WORDS = ["alpha", "Bravo", "čárka", "δέλτα", "echo & co", "fox<trot>", "golf \"quoted\"", "hôtel",
          "индия", "juliet's", "キロ", "lima]]>", "mike nbsp", "𝒏ovember", "🙂scar", "papa\ttab",
-         "q=1&r=2", "<!--not a comment-->", "  padded  ", "x" * 40, "carriage\rreturn", "cr\r\nlf"]
+         "q=1&r=2", "<!--not a comment-->", "  padded  ", "x" * 40, "carriage\rreturn", "cr\r\nlf", "nel\x85del\x7fapc\x9f"]
 TAGS = ["mosAbstract", "objSlug", "objDur", "objTB", "ncsItem", "studioCommand", "text", "b", "i",
         "custom-tag", "ns_tag", "Element.With.Dots",
         # look-alikes of structural elements, nested where they mean nothing (depth >= 3)
@@ -39,7 +39,10 @@ LIKELY_IDS = ["S1", "S2", "S3", "N1", "N2", "SU", "I1", "I2", "I3", "J1", "J2", 
 # anything is rendered or judged (TLC then simply sees other strings).
 # ------------------------------------------------------------------------------------------
 ID_STYLES = ("plain", "plain", "prefix", "special", "case", "spaces", "long", "numeric", "words", "xpath", "verylong",
-             "unicode", "trail")
+             "unicode", "trail", "url")
+URL_IDS = ["http://host/a", "HTTP://Host/a", "http://[::1/mos/schema", "http://[ncs-gallery]/schema", "urn:x:y", "//[",
+           "http://a b/c", "file:///c:/x", "http://host:99999/x", "http://host:port/x", "http://host/a?b=1#c", "mailto:x@y",
+           "http://host/%zz", "http://h\u00f6st/", "http://host/a/", "HTTP://HOST/A"]
 NUMERIC_IDS = ["9", "10", "007", "7", "1e3", "0", "-1", "100", "1.0", "1", "0x1F", "+5", "1000", "٣", "1_0", "00"]
 WORD_IDS = ["None", "True", "False", "nan", "null", "story", "item", "storyID", "itemID", "p", "roCreate", "id", "self",
             "mos", "undefined", "NaN"]
@@ -65,8 +68,8 @@ def id_style_map(style):
             y = "".join(ch.upper() if (n >> i) & 1 else ch for i, ch in enumerate(base)) + ("" if n < 32 else str(n))
         elif style == "spaces":        # inner blanks and dots; never leading / trailing ones
             y = "a" + " " * n + "b.c"
-        elif style in ("numeric", "words", "xpath"):     # ids that look like numbers, keywords / tag names, path expressions
-            pool = {"numeric": NUMERIC_IDS, "words": WORD_IDS, "xpath": XPATH_IDS}[style]
+        elif style in ("numeric", "words", "xpath", "url"):     # ids that look like numbers, keywords / tag names, path expressions
+            pool = {"numeric": NUMERIC_IDS, "words": WORD_IDS, "xpath": XPATH_IDS, "url": URL_IDS}[style]
             y = pool[n - 1] if n <= len(pool) else "%s#%d" % (pool[n % len(pool)], n)
         elif style == "verylong":      # ids of 300+ characters that differ only at the very end
             y = "V" * 300 + "%03d" % n
@@ -167,12 +170,15 @@ class Gamma:
         if tag in ("item", "storyItem"):
             idpart = "<itemID/>" if nid == NONE else "<itemID>%s</itemID>" % escape(nid)
             body = [idpart, "<itemSlug>%s</itemSlug>" % escape(self.text(r)), self.marker(tok)]
+            if nid == NONE and r.random() < 0.3:          # an item without any itemID element has no id either
+                body = body[1:]
             if r.random() < 0.5:
                 body.append("<objID>%s</objID>" % escape(self.text(r)))
             if r.random() < 0.5:
                 body.append("<mosID>%s</mosID>" % escape(self.text(r)))
             body += self.rich_children(r, 2)
-            return "<%s>%s</%s>" % (tag, self.join(body, 3), tag)
+            tail = escape("after %s" % tok) if tok.startswith("xt:") else ""       # character data after the item
+            return "<%s>%s</%s>%s" % (tag, self.join(body, 3), tag, tail)
         if tag == "mosExternalMetadata":
             parts = []
             if r.random() < 0.5:
@@ -231,7 +237,10 @@ class Gamma:
         return ""
 
     def story(self, n, tag="story", depth=3):
-        return "<%s%s>%s</%s>" % (tag, self.attrs(n["tok"]), self.join([self.leaf(k) for k in n["kids"]], depth), tag)
+        # a story element with attributes of its own is also followed by character data (mixed content in <roCreate>
+        # or in the message): text after an element belongs to that element and travels with it
+        tail = escape("after %s" % n["tok"]) if tag == "story" and isinstance(n["tok"], str) and n["tok"].startswith("a:") else ""
+        return "<%s%s>%s</%s>%s" % (tag, self.attrs(n["tok"]), self.join([self.leaf(k) for k in n["kids"]], depth), tag, tail)
 
     def child(self, n, depth=3):
         if n["tag"] == "story":
@@ -247,7 +256,7 @@ class Gamma:
         parts = []
         for c in ro["root"]:
             if c["tag"] == "roCreate":
-                parts.append("<roCreate>%s</roCreate>" % self.join([self.child(k) for k in ro["kids"]], 2))
+                parts.append("<roCreate%s>%s</roCreate>" % (self.attrs(c["tok"]), self.join([self.child(k) for k in ro["kids"]], 2)))
             elif c["tag"] == "mosromgrmeta":
                 parts.append("<mosromgrmeta>%s</mosromgrmeta>" % self.join([self.leaf(k) for k in c["kids"]], 2))
             else:
